@@ -105,7 +105,7 @@ var profRobust = register(&Profile{
 	Oracles: []Oracle{{Name: "robust", After: oracleRobust}},
 })
 
-var metaNames = []string{"a(", "a[", "a*", "a+", "a?", "a\\", "a.", "(", "[", "*", "+x", "?", "a(b", "x[0-9]", "a{2}", "^a", "a$", "a|b", "d/a(", "a(/x", "é(", "a b(", "**", "[a-", "\\"}
+var metaNames = []string{"a: b", "x y", "ref: z", "a:b", " lead", "trail ", "a(", "a[", "a*", "a+", "a?", "a\\", "a.", "(", "[", "*", "+x", "?", "a(b", "x[0-9]", "a{2}", "^a", "a$", "a|b", "d/a(", "a(/x", "é(", "a b(", "**", "[a-", "\\"}
 
 func (g *G) someID() string {
 	switch g.Int(0, 8, "idShape") {
@@ -199,6 +199,9 @@ func genCommandLine(g *G) Step {
 		if g.Chance(10, "noargs") {
 			return inv("add")
 		}
+		if fs := g.WorkFiles(); len(fs) > 0 && g.Chance(15, "validThenUnknown") {
+			return inv("add", noDash(g.Pick(fs, "file")), "no-such-path-"+fmt.Sprint(g.Int(0, 9, "n")))
+		}
 		return goit(append([]string{"add"}, many(path, 1, 3)...)...)
 	case 2:
 		args := []string{"commit"}
@@ -207,6 +210,10 @@ func genCommandLine(g *G) Step {
 		}
 		return goit(append(args, many(path, 0, 1)...)...)
 	case 3:
+		if ts := g.E.Cur.Tracked(); len(ts) > 0 && g.Chance(20, "validThenUnknown") {
+			first := g.Pick(append(ts, trackedDirs(ts)...), "tracked")
+			return inv("rm", noDash(first), "no-such-path-"+fmt.Sprint(g.Int(0, 9, "n")))
+		}
 		args := []string{"rm"}
 		if g.Chance(20, "r") {
 			args = append(args, "-r")
@@ -252,6 +259,9 @@ func genCommandLine(g *G) Step {
 		if g.Chance(10, "noargs") {
 			return inv(args...)
 		}
+		if ts := g.E.Cur.Tracked(); len(ts) > 0 && g.E.Cur.HeadCommit() != "" && g.Chance(20, "validThenUnknown") {
+			return inv(append(args, noDash(g.Pick(ts, "tracked")), "no-such-path-"+fmt.Sprint(g.Int(0, 9, "n")))...)
+		}
 		return goit(append(args, many(path, 1, 2)...)...)
 	case 7:
 		args := []string{"reset"}
@@ -290,7 +300,7 @@ func genCommandLine(g *G) Step {
 		case 2:
 			return inv("config", "username", "v")
 		case 3:
-			return inv("config", "a.b.c", "v")
+			return inv("config", g.Pick([]string{"a.b.c", ".x", "x.", ".", ""}, "badkey"), "v")
 		default:
 			args := []string{"config"}
 			if g.Bool("global") {
